@@ -67,12 +67,138 @@ fn run_world(mut wd: World, mut rng: Option<Rng>, trace: Option<Vec<Action>>, se
 	wd.finish()
 }
 
+/// C10 sweep mode: one scenario, then a crash at every cut position of it (between actions and
+/// inside the persist calls of the next action), for every node, with the in-flight monitor writes
+/// lost / kept, followed by restart, settle, liquidation and all oracles.
+fn run_crash_sweep(seed: u64, tier: Tier) -> RunOutcome {
+	let mut rng = Rng::new(seed);
+	let mut cfg = sched::gen_config("crash", &mut rng, tier);
+	for k in ["Crash", "ArmCrash", "Restart"] {
+		cfg.weights.insert(k.to_string(), 0);
+	}
+	cfg.max_steps = match tier {
+		Tier::Quick => 30 + rng.below(25),
+		Tier::Thorough => 40 + rng.below(50),
+	};
+	cfg.profile = "crash".to_string();
+	// 1. the scenario
+	let mut base = World::new(cfg.clone());
+	base.out.seed = seed;
+	base.setup();
+	let mut sched_rng = rng.fork("schedule");
+	let mut idle = 0;
+	while (base.trace.len() as u64) < cfg.max_steps && !base.dead && idle < 50 {
+		match sched::next_action(&base, &mut sched_rng) {
+			Some(a) => {
+				if base.apply(&a) {
+					idle = 0;
+				} else {
+					idle += 1;
+				}
+			},
+			None => break,
+		}
+	}
+	let scenario: Vec<Action> = base.trace.clone();
+	let n_nodes = cfg.nodes.len();
+	let mut out = RunOutcome::new("crashsweep", seed);
+	out.seed = seed;
+	out.counters = base.out.counters.clone();
+	out.violations = base.out.violations.clone();
+	out.harness_errors = base.out.harness_errors.clone();
+	out.state_fps = base.state_fps.iter().cloned().collect();
+	out.interleaving_fp = base.inter;
+	out.history_fp = base.hist;
+	out.steps = base.step;
+	let mut first_replay = None;
+	if !out.violations.is_empty() {
+		let b = base.finish();
+		out.replay = b.replay;
+		out.sample = b.sample;
+		return out;
+	}
+	drop(base);
+	// 2. the cuts
+	let mut cuts: Vec<usize> = (0..=scenario.len()).collect();
+	if tier == Tier::Quick && cuts.len() > 24 {
+		let mut pick = rng.fork("cuts");
+		pick.shuffle(&mut cuts);
+		cuts.truncate(24);
+		cuts.sort();
+	}
+	let mut variants: Vec<(usize, u8)> = Vec::new();
+	for n in 0..n_nodes {
+		for v in 0..3u8 {
+			variants.push((n, v));
+		}
+	}
+	for k in cuts.iter() {
+		for (n, v) in variants.iter() {
+			let mut trace: Vec<Action> = scenario[..*k].to_vec();
+			match v {
+				0 => trace.push(Action::Crash { n: *n, pick: vec![0, 0, 0, 0, 0, 0] }),
+				1 => trace.push(Action::Crash { n: *n, pick: vec![9, 9, 9, 9, 9, 9] }),
+				_ => {
+					// crash inside the first persist call of the next action of the scenario
+					if *k >= scenario.len() {
+						continue;
+					}
+					trace.push(Action::ArmCrash { n: *n, at: 1, after: (*k % 2) == 0 });
+					trace.push(scenario[*k].clone());
+				},
+			}
+			trace.push(Action::Settle);
+			trace.push(Action::Liquidate);
+			let wd = World::new(cfg.clone());
+			let sub = run_world(wd, None, Some(trace), seed);
+			out.bump("crashpoints_explored");
+			out.bump(match v {
+				0 => "crashpoint:between_actions_inflight_lost",
+				1 => "crashpoint:between_actions_inflight_survived",
+				_ => "crashpoint:inside_persist_call",
+			});
+			for (key, val) in sub.counters.iter() {
+				if key.starts_with("fault:") || key.starts_with("probe:") || key.starts_with("oracle:") || key.starts_with("closure:") {
+					*out.counters.entry(key.clone()).or_insert(0) += *val;
+				}
+			}
+			out.history_fp = simcore::fnv_extend(out.history_fp, &sub.history_fp.to_le_bytes());
+			out.steps += sub.steps;
+			out.sim_blocks += sub.sim_blocks;
+			out.sim_seconds += sub.sim_seconds;
+			for he in sub.harness_errors.iter() {
+				if out.harness_errors.len() < 3 {
+					out.harness_errors.push(he.clone());
+				}
+			}
+			for viol in sub.violations.iter() {
+				let known = out.violations.iter().any(|x| x.property == viol.property && x.oracle == viol.oracle);
+				if !known {
+					out.violations.push(viol.clone());
+					if first_replay.is_none() {
+						first_replay = sub.replay.clone();
+					}
+				}
+			}
+			if out.sample.is_none() {
+				out.sample = sub.sample.clone();
+			}
+		}
+	}
+	out.nontrivial = true;
+	out.replay = first_replay;
+	out
+}
+
 impl Sim for LnSim {
 	fn name(&self) -> &'static str {
 		"lnsim"
 	}
 
 	fn run(&self, profile: &str, seed: u64, tier: Tier) -> RunOutcome {
+		if profile == "crashsweep" {
+			return run_crash_sweep(seed, tier);
+		}
 		let mut rng = Rng::new(seed);
 		let cfg = sched::gen_config(profile, &mut rng, tier);
 		let wd = World::new(cfg);
